@@ -1,15 +1,291 @@
 package main
 
 import (
+	"fmt"
+	"go/types"
+
 	"golang.org/x/tools/go/ssa"
 )
 
-type gobState struct{}
+// ---------------------------------------------------------------------------
+// encoding/gob modelled as a record stream.
+//
+// Encode(v) snapshots the exported fields of the struct v (through pointers/interfaces),
+// dropping zero-valued fields exactly as gob does, stores the record in a side table and
+// writes ONE handle byte (the record index) through the real io.Writer chain of the code
+// under test. Decode(&dst) reads one byte through the real io.Reader chain, then applies
+// gob's field semantics: transmitted fields are set, untransmitted fields are left as they
+// are, a []byte destination with enough capacity is reused in place.
+// ---------------------------------------------------------------------------
+
+type gobField struct {
+	name string
+	val  Value
+}
+
+type gobRecord struct {
+	typ    string
+	fields []gobField
+}
+
+type gobState struct {
+	records []gobRecord
+}
+
+type gobEnc struct{ w IfaceVal }
+type gobDec struct{ r IfaceVal }
+
+func isZeroVal(v Value) bool {
+	switch x := v.(type) {
+	case *Term:
+		if !x.IsConst() {
+			return false
+		}
+		switch x.Sort.K {
+		case SBool:
+			return !x.B
+		case SBV:
+			return x.U == 0
+		case SInt:
+			return x.I.Sign() == 0
+		case SReal:
+			return x.R.Sign() == 0
+		}
+	case *StrVal:
+		return len(x.B) == 0
+	case SliceVal:
+		return x.Len == 0
+	case IfaceVal:
+		return x.T == nil
+	case PtrVal:
+		return x.C == nil
+	case *MapVal:
+		return x == nil || len(x.Entries) == 0
+	case *StructVal:
+		for _, f := range x.F {
+			if !isZeroVal(f.V) {
+				return false
+			}
+		}
+		return true
+	}
+	return false
+}
 
 func (e *Engine) gobStub(fr *frame, fn *ssa.Function, args []Value) Value {
-	panic(engineErr("gob stub not built yet"))
+	if e.gob == nil {
+		e.gob = &gobState{}
+	}
+	e.stub("encoding/gob (record stream: zero fields omitted and not reset, []byte reused when capacity suffices; wire format not modelled)")
+	errT := types.Universe.Lookup("error").Type()
+	_ = errT
+	switch fn.Name() {
+	case "NewEncoder":
+		return PtrVal{C: e.newCell(&gobEnc{w: args[0].(IfaceVal)})}
+	case "NewDecoder":
+		return PtrVal{C: e.newCell(&gobDec{r: args[0].(IfaceVal)})}
+	case "Encode":
+		enc := args[0].(PtrVal).C.V.(*gobEnc)
+		v := args[1].(IfaceVal)
+		st, sty := e.gobStruct(fr, v)
+		if st == nil {
+			panic(engineErr("gob stub: Encode of %s is not modelled", v.T))
+		}
+		rec := gobRecord{typ: sty.String()}
+		us := sty.Underlying().(*types.Struct)
+		for i := 0; i < us.NumFields(); i++ {
+			f := us.Field(i)
+			if !f.Exported() {
+				continue
+			}
+			fv := e.copyVal(e.load(fr, st.F[i]))
+			if symTerm, ok := fv.(*Term); ok && !symTerm.IsConst() {
+				// symbolic scalar: zero-ness decides whether the field is transmitted
+				zero := e.tb.Eq(symTerm, e.zeroLike(symTerm))
+				if e.branch(zero) {
+					continue
+				}
+			} else if isZeroVal(fv) {
+				continue
+			}
+			if sl, ok := fv.(SliceVal); ok {
+				// snapshot bytes
+				arr := &ArrayVal{E: make([]*Cell, sl.Len)}
+				for k := 0; k < sl.Len; k++ {
+					arr.E[k] = e.newCell(e.load(fr, sl.Arr.E[sl.Off+k]))
+				}
+				fv = SliceVal{Arr: arr, Len: sl.Len, Cap: sl.Len}
+			}
+			rec.fields = append(rec.fields, gobField{f.Name(), fv})
+		}
+		e.gob.records = append(e.gob.records, rec)
+		idx := len(e.gob.records) - 1
+		if idx > 250 {
+			panic(engineErr("gob stub: too many records"))
+		}
+		// one handle byte through the real writer chain
+		arr := &ArrayVal{E: []*Cell{e.newCell(e.tb.BVConst(uint64(idx), 8))}}
+		res := e.invokeByName(fr, enc.w, "Write", []Value{SliceVal{Arr: arr, Len: 1, Cap: 1}}).(TupleVal)
+		return res[1]
+	case "Decode":
+		dec := args[0].(PtrVal).C.V.(*gobDec)
+		dst := args[1].(IfaceVal)
+		arr := &ArrayVal{E: []*Cell{e.newCell(e.tb.BVConst(0, 8))}}
+		res := e.invokeByName(fr, dec.r, "Read", []Value{SliceVal{Arr: arr, Len: 1, Cap: 1}}).(TupleVal)
+		n := res[0].(*Term)
+		rerr := res[1].(IfaceVal)
+		if !n.IsConst() {
+			panic(engineErr("gob stub: symbolic read length"))
+		}
+		if n.U == 0 {
+			if rerr.T == nil {
+				panic(engineErr("gob stub: reader returned 0 bytes and nil error"))
+			}
+			return rerr
+		}
+		hb := arr.E[0].V.(*Term)
+		if !hb.IsConst() || int(hb.U) >= len(e.gob.records) {
+			panic(engineErr("gob stub: bad record handle"))
+		}
+		rec := e.gob.records[hb.U]
+		pt, ok := dst.T.Underlying().(*types.Pointer)
+		if !ok {
+			panic(engineErr("gob stub: Decode target %s", dst.T))
+		}
+		cell := dst.V.(PtrVal).C
+		if cell == nil {
+			e.progPanicAt(fr, "gob: Decode into nil pointer")
+		}
+		us, ok := pt.Elem().Underlying().(*types.Struct)
+		if !ok {
+			panic(engineErr("gob stub: Decode target %s", dst.T))
+		}
+		st := cell.V.(*StructVal)
+		for _, f := range rec.fields {
+			for i := 0; i < us.NumFields(); i++ {
+				if us.Field(i).Name() != f.name {
+					continue
+				}
+				if sv, ok := f.val.(SliceVal); ok {
+					cur, _ := e.load(fr, st.F[i]).(SliceVal)
+					if cur.Arr != nil && cur.Cap >= sv.Len {
+						// reuse the destination's backing array (gob: value.SetLen(n))
+						for k := 0; k < sv.Len; k++ {
+							e.store(fr, cur.Arr.E[cur.Off+k], sv.Arr.E[k].V)
+						}
+						e.store(fr, st.F[i], SliceVal{Arr: cur.Arr, Off: cur.Off, Len: sv.Len, Cap: cur.Cap})
+					} else {
+						na := &ArrayVal{E: make([]*Cell, sv.Len)}
+						for k := range na.E {
+							na.E[k] = e.newCell(sv.Arr.E[k].V)
+						}
+						e.store(fr, st.F[i], SliceVal{Arr: na, Len: sv.Len, Cap: sv.Len})
+					}
+				} else {
+					e.store(fr, st.F[i], e.copyVal(f.val))
+				}
+			}
+		}
+		return IfaceVal{}
+	}
+	panic(engineErr("gob stub: %s", fn))
 }
 
-func (e *Engine) sortSliceStub(fr *frame, args []Value) Value {
-	panic(engineErr("sort.Slice stub not built yet"))
+func (e *Engine) zeroLike(t *Term) *Term {
+	switch t.Sort.K {
+	case SBool:
+		return e.tb.Bool(false)
+	case SBV:
+		return e.tb.BVConst(0, t.Sort.W)
+	case SInt:
+		return e.tb.IntConst64(0)
+	}
+	return e.tb.RealConstF(0)
 }
+
+// gobStruct finds the struct behind an interface value (through pointers).
+func (e *Engine) gobStruct(fr *frame, v IfaceVal) (*StructVal, types.Type) {
+	t := v.T
+	val := v.V
+	for n := 0; n < 4; n++ {
+		if t == nil {
+			return nil, nil
+		}
+		switch u := t.Underlying().(type) {
+		case *types.Pointer:
+			p := val.(PtrVal)
+			if p.C == nil {
+				return nil, nil
+			}
+			t = u.Elem()
+			val = p.C.V
+			continue
+		case *types.Struct:
+			st, _ := val.(*StructVal)
+			return st, t
+		}
+		return nil, nil
+	}
+	return nil, nil
+}
+
+func (e *Engine) invokeByName(fr *frame, recv IfaceVal, name string, args []Value) Value {
+	if recv.T == nil {
+		e.progPanicAt(fr, "nil pointer dereference (method "+name+" on nil interface)")
+	}
+	fn := e.lookupMethod(recv.T, name)
+	if fn == nil {
+		panic(engineErr("method %s not found on %s", name, recv.T))
+	}
+	return e.callFunc(fr, &FuncVal{Fn: fn}, append([]Value{recv.V}, args...))
+}
+
+// ---------------------------------------------------------------------------
+// sort.Slice: any outcome of any correct (possibly unstable) comparison sort. An insertion
+// sort is run with the REAL less closure; every comparison forks on its symbolic result,
+// ties are resolved both ways.
+// ---------------------------------------------------------------------------
+
+func (e *Engine) sortSliceStub(fr *frame, args []Value) Value {
+	e.stub("sort.Slice (insertion sort over the real less closure; ties resolved nondeterministically)")
+	iv := args[0].(IfaceVal)
+	s, ok := iv.V.(SliceVal)
+	if !ok {
+		panic(engineErr("sort.Slice on %T", iv.V))
+	}
+	less := args[1].(*FuncVal)
+	if s.Len > 8 {
+		panic(engineErr("sort.Slice stub: more than 8 elements (%d)", s.Len))
+	}
+	idx := func(i int) *Term { return e.tb.BVConst(uint64(i), 64) }
+	lt := func(i, j int) bool {
+		return e.branch(e.callFunc(fr, less, []Value{idx(i), idx(j)}).(*Term))
+	}
+	swap := func(i, j int) {
+		a, b := s.Arr.E[s.Off+i], s.Arr.E[s.Off+j]
+		va, vb := e.copyVal(a.V), e.copyVal(b.V)
+		e.storeInto(a, vb)
+		e.storeInto(b, va)
+	}
+	for i := 1; i < s.Len; i++ {
+		for j := i; j > 0; j-- {
+			if lt(j, j-1) {
+				swap(j, j-1)
+				continue
+			}
+			if lt(j-1, j) {
+				break
+			}
+			// tie: an unstable sort may leave the two in either order
+			t := e.newInput("sortTie", BoolSort)
+			if e.branch(t) {
+				swap(j, j-1)
+				continue
+			}
+			break
+		}
+	}
+	return nil
+}
+
+var _ = fmt.Sprintf
